@@ -42,7 +42,16 @@ func C06(p *load.Prog, r *report.Report) {
 		}
 		for _, mode := range []string{"distinct", "argument is the receiver", "nil"} {
 			construct := fmt.Sprintf("Scalar.%s (%s)", op.meth, mode)
-			res := runStraight(p, r, "C06.arith", construct, fn, func(it *absint.Interp) []absint.Value {
+			var want0 *absint.Poly
+			switch mode {
+			case "distinct":
+				want0 = op.want(s, t)
+			case "nil":
+				want0 = op.nilW(s)
+			default:
+				want0 = op.want(s, s)
+			}
+			runEach(p, r, "C06.arith", construct, fn, func(it *absint.Interp) []absint.Value {
 				recv := m.newScalar(it, "s", s)
 				switch mode {
 				case "distinct":
@@ -51,30 +60,20 @@ func C06(p *load.Prog, r *report.Report) {
 					return []absint.Value{ptr(recv), absint.Nil{}}
 				}
 				return []absint.Value{ptr(recv), ptr(recv)}
-			})
-			if res == nil {
-				continue
-			}
-			var want *absint.Poly
-			switch mode {
-			case "distinct":
-				want = op.want(s, t)
-			case "nil":
-				want = op.nilW(s)
-			default:
-				want = op.want(s, s)
-			}
-			got, why := m.scalarVal(res.It, res.It.InputRoots()[0])
-			r.Check(why == "" && got.Equal(want), "C06.arith", construct, p.Pos(fn.Pos()), "receiver = "+want.String(), fmt.Sprintf("receiver is %v (%s), expected %s", got, why, want))
-			if mode == "distinct" {
-				tv, w := m.scalarVal(res.It, res.It.InputRoots()[1])
-				if w != "" || !tv.Equal(t) {
-					r.Fail("C06.arith", construct+" operand", p.Pos(fn.Pos()), "the argument is modified")
+			}, func(res *absint.PathResult) {
+				want := sp(res, want0)
+				got, why := m.scalarVal(res.It, res.It.InputRoots()[0])
+				r.Check(why == "" && got.Equal(want), "C06.arith", construct, p.Pos(fn.Pos()), "receiver = "+want0.String(), fmt.Sprintf("receiver is %v (%s), expected %s", got, why, want))
+				if mode == "distinct" {
+					tv, w := m.scalarVal(res.It, res.It.InputRoots()[1])
+					if w != "" || !tv.Equal(sp(res, t)) {
+						r.Fail("C06.arith", construct+" operand", p.Pos(fn.Pos()), "the argument is modified")
+					}
 				}
-			}
-			if pr, ok := res.Ret.(absint.Ptr); !ok || pr.C != res.It.InputRoots()[0] {
-				r.Fail("C06.arith", construct+" result", p.Pos(fn.Pos()), "the method does not return its receiver")
-			}
+				if pr, ok := res.Ret.(absint.Ptr); !ok || pr.C != res.It.InputRoots()[0] {
+					r.Fail("C06.arith", construct+" result", p.Pos(fn.Pos()), "the method does not return its receiver")
+				}
+			})
 		}
 	}
 	type unop struct {
@@ -94,43 +93,42 @@ func C06(p *load.Prog, r *report.Report) {
 			continue
 		}
 		construct := "Scalar." + op.meth
-		res := runStraight(p, r, "C06.arith", construct, fn, func(it *absint.Interp) []absint.Value {
+		runEach(p, r, "C06.arith", construct, fn, func(it *absint.Interp) []absint.Value {
 			return []absint.Value{ptr(m.newScalar(it, "s", s))}
+		}, func(res *absint.PathResult) {
+			got, why := m.scalarVal(res.It, res.It.InputRoots()[0])
+			detail := "receiver = " + op.want.String()
+			if op.meth == "Invert" {
+				detail = "receiver = s^(n-2) = inv0(s): exponent computed from the chain's own code"
+			}
+			want := sp(res, op.want)
+			r.Check(why == "" && got.Equal(want), "C06.arith", construct, p.Pos(fn.Pos()), detail, fmt.Sprintf("receiver is %v (%s), expected %s", got, why, want))
 		})
-		if res == nil {
-			continue
-		}
-		got, why := m.scalarVal(res.It, res.It.InputRoots()[0])
-		detail := "receiver = " + op.want.String()
-		if op.meth == "Invert" {
-			detail = fmt.Sprintf("receiver = s^(n-2) = inv0(s): exponent computed from the chain's own code (%d leaf calls)", res.It.LeafCalls)
-		}
-		r.Check(why == "" && got.Equal(op.want), "C06.arith", construct, p.Pos(fn.Pos()), detail, fmt.Sprintf("receiver is %v (%s), expected %s", got, why, op.want))
 	}
 	// Copy: fresh object with the same value
 	if fn := p.Method(p.Root, "Scalar", "Copy"); fn != nil {
-		if res := runStraight(p, r, "C06.arith", "Scalar.Copy", fn, func(it *absint.Interp) []absint.Value {
+		runEach(p, r, "C06.arith", "Scalar.Copy", fn, func(it *absint.Interp) []absint.Value {
 			return []absint.Value{ptr(m.newScalar(it, "s", s))}
-		}); res != nil {
+		}, func(res *absint.PathResult) {
 			pr, ok := res.Ret.(absint.Ptr)
 			good := ok && pr.C != res.It.InputRoots()[0]
 			if good {
 				v, w := m.scalarVal(res.It, pr.C)
-				good = w == "" && v.Equal(s)
+				good = w == "" && v.Equal(sp(res, s))
 			}
 			r.Check(good, "C06.arith", "Scalar.Copy", p.Pos(fn.Pos()), "a new scalar with the same value", "Copy does not return a fresh scalar with the receiver's value")
-		}
+		})
 	}
 	// SetUInt64
 	if fn := p.Method(p.Root, "Scalar", "SetUInt64"); fn != nil {
 		i := absint.SymWord("i")
-		if res := runStraight(p, r, "C06.arith", "Scalar.SetUInt64", fn, func(it *absint.Interp) []absint.Value {
+		runEach(p, r, "C06.arith", "Scalar.SetUInt64", fn, func(it *absint.Interp) []absint.Value {
 			return []absint.Value{ptr(m.newScalar(it, "s", s)), absint.TermV{T: i}}
-		}); res != nil {
+		}, func(res *absint.PathResult) {
 			got, why := m.scalarVal(res.It, res.It.InputRoots()[0])
-			want := absint.EmbTerm(FN, i)
+			want := sp(res, absint.EmbTerm(FN, i))
 			r.Check(why == "" && got.Equal(want), "C06.arith", "Scalar.SetUInt64", p.Pos(fn.Pos()), "receiver = i (mod n) for every 64-bit i", fmt.Sprintf("receiver is %v (%s)", got, why))
-		}
+		})
 	} else {
 		r.Undecided("C06.anchor", "SetUInt64", "", "method not found")
 	}
@@ -138,14 +136,14 @@ func C06(p *load.Prog, r *report.Report) {
 	if fn := p.Scalar.Func("Invert"); fn != nil {
 		alpha := absint.FieldSym(FN, "α")
 		limbT := fn.Params[0].Type().(*types.Pointer).Elem()
-		if res := runStraight(p, r, "C06.chain", "scalar.Invert", fn, func(it *absint.Interp) []absint.Value {
+		runEach(p, r, "C06.chain", "scalar.Invert", fn, func(it *absint.Interp) []absint.Value {
 			o := it.NewObject(limbT, "out", true)
 			it.SetMont(FN, o.Root, alpha)
 			return []absint.Value{ptr(o), it.LoadAgg(o.Root)}
-		}); res != nil {
+		}, func(res *absint.PathResult) {
 			got, why := res.It.ReadMont(FN, res.It.InputRoots()[0])
-			r.Check(why == "" && got.Equal(alpha.Pow(FN.M2)), "C06.chain", "scalar.Invert", p.Pos(fn.Pos()), fmt.Sprintf("α ↦ α^(n-2), exponent computed from the chain's own %d leaf calls", res.It.LeafCalls), fmt.Sprintf("the scalar inversion chain computes %v, not α^(n-2)", got))
-		}
+			r.Check(why == "" && got.Equal(sp(res, alpha.Pow(FN.M2))), "C06.chain", "scalar.Invert", p.Pos(fn.Pos()), "α ↦ α^(n-2), exponent computed from the chain's own code", fmt.Sprintf("the scalar inversion chain computes %v, not α^(n-2)", got))
+		})
 	} else {
 		r.Undecided("C06.anchor", "scalar.Invert", "", "function not found")
 	}
